@@ -58,6 +58,13 @@ pub enum CredDefect {
     /// The NOC was issued (signed) by another, genuine NOC of the fabric, which is presented
     /// in the ICAC position: a fabric member minting identities (chain without ICAC only).
     NocIssuedByNoc,
+    /// A complete, well-formed chain of a SIBLING fabric under the same root: an ICAC issued by
+    /// the addressed fabric's root CA but carrying another fabric id, and a NOC of that other
+    /// fabric issued by it.
+    SiblingFabricSameRoot,
+    /// NOT a defect (control for the one above): both sides hold valid NOCs issued directly by
+    /// a root certificate that carries no fabric id. The handshake must succeed.
+    FabriclessRootHonest,
 }
 
 pub const CRED_DEFECTS: &[CredDefect] = &[
@@ -70,6 +77,8 @@ pub const CRED_DEFECTS: &[CredDefect] = &[
     CredDefect::IcacSignatureBit,
     CredDefect::ForeignIcac,
     CredDefect::NocIssuedByNoc,
+    CredDefect::SiblingFabricSameRoot,
+    CredDefect::FabriclessRootHonest,
 ];
 
 #[derive(Clone, Debug)]
@@ -144,6 +153,10 @@ pub struct Outcome {
     pub max_copies: u32,
     /// (secured datagrams seen by the passive monitor, byte-identical retransmissions among them)
     pub tap_stats: (u64, u64),
+    /// What CASE's own chain validation (`CaseP::validate_certs`, called directly with the
+    /// verifying node's fabric record) says about the credentials the other side presents:
+    /// Some(true) = accepted.
+    pub direct_validate: Option<bool>,
 }
 
 fn secure_case(s: &[VerifSession]) -> Vec<VerifSession> {
@@ -163,9 +176,19 @@ fn make_creds<C: Crypto>(
     cats: &[u32],
     defect: CredDefect,
     now_matter_secs: u32,
+    // Some(rcac id): the case runs under a harness-written root certificate that carries no
+    // fabric id (a root CA shared by several fabrics); NOCs are then written by the harness too
+    fabricless_root: Option<u64>,
 ) -> Result<(Vec<u8> /*icac*/, NodeCreds), Error> {
     match defect {
+        CredDefect::None | CredDefect::FabriclessRootHonest if fabricless_root.is_some() => {
+            let root_key = crate::mon::c19_certgen::key_from_secret(crypto, ca.rcac_key.reference());
+            let issuer = vec![crate::mon::c19_certgen::DnAttr::u(crate::mon::c19_certgen::DN_RCAC_ID, fabricless_root.unwrap())];
+            let (noc, key) = cg_noc(crypto, rng, node_id, cats, ca.fabric_id, issuer, &root_key)?;
+            Ok((Vec::new(), NodeCreds { node_id, cats: cats.to_vec(), noc, key }))
+        }
         CredDefect::None => Ok((ca.icac.clone(), ca.mint(crypto, node_id, cats)?)),
+        CredDefect::FabriclessRootHonest => Err(ErrorCode::Invalid.into()),
         CredDefect::ForeignRootSameFabricId => {
             let mut other = FabricCa::new(crypto, rng, ca.fabric_id, !ca.icac.is_empty())?;
             other.ipk = ca.ipk;
@@ -221,6 +244,43 @@ fn make_creds<C: Crypto>(
             let creds = ca.mint(crypto, node_id, cats)?;
             Ok((other.icac.clone(), creds))
         }
+        CredDefect::SiblingFabricSameRoot => {
+            use crate::mon::c19_certgen as cg;
+            let Some(rcac_id) = fabricless_root else {
+                return Err(ErrorCode::Invalid.into());
+            };
+            let other_fabric = ca.fabric_id + 1;
+            let root_key = cg::key_from_secret(crypto, ca.rcac_key.reference());
+            // ICAC of the sibling fabric, issued by the shared root
+            let icac_key = cg::gen_key(crypto);
+            let icac_id = 0x1CAC_0000 + rng.below(1 << 16);
+            let icac_subject = vec![cg::DnAttr::u(cg::DN_ICAC_ID, icac_id), cg::DnAttr::u(cg::DN_FABRIC_ID, other_fabric)];
+            let icac_p = cg::CertParams {
+                serial: vec![0x51, 0x01],
+                sig_algo: 1,
+                issuer: vec![cg::DnAttr::u(cg::DN_RCAC_ID, rcac_id)],
+                not_before: 1,
+                not_after: 0,
+                subject: icac_subject.clone(),
+                pubkey_algo: 1,
+                curve: 1,
+                pubkey: icac_key.pk.to_vec(),
+                bc: Some((true, Some(0))),
+                ku: Some(cg::KU_KEY_CERT_SIGN | cg::KU_CRL_SIGN),
+                eku: None,
+                skid: Some(icac_key.kid.to_vec()),
+                akid: Some(root_key.kid.to_vec()),
+                future: None,
+                omit: vec![],
+            };
+            let (icac, ok1) = cg::build_cert(crypto, &icac_p, &icac_p, &root_key, None, rng).map_err(|_| Error::from(ErrorCode::Invalid))?;
+            if !ok1 {
+                return Err(ErrorCode::Invalid.into());
+            }
+            // NOC of the sibling fabric, issued by that ICAC
+            let (noc, key) = cg_noc(crypto, rng, node_id, cats, other_fabric, icac_subject, &icac_key)?;
+            Ok((icac, NodeCreds { node_id, cats: cats.to_vec(), noc, key }))
+        }
         CredDefect::NocIssuedByNoc => {
             use crate::mon::c19_certgen as cg;
             // A genuine member (some other node id, NOC issued by the root) ...
@@ -275,6 +335,84 @@ fn make_creds<C: Crypto>(
             ))
         }
     }
+}
+
+/// A NOC written by the harness certificate writer: subject (node id, fabric id, CATs), the
+/// given issuer name, signed by `signer`.
+fn cg_noc<C: Crypto>(
+    crypto: &C,
+    rng: &mut Rng,
+    node_id: u64,
+    cats: &[u32],
+    fabric_id: u64,
+    issuer: Vec<crate::mon::c19_certgen::DnAttr>,
+    signer: &crate::mon::c19_certgen::Key,
+) -> Result<(Vec<u8>, rs_matter::crypto::CanonPkcSecretKey), Error> {
+    use crate::mon::c19_certgen as cg;
+    let key2 = cg::gen_key(crypto);
+    let mut subject = vec![cg::DnAttr::u(cg::DN_NODE_ID, node_id), cg::DnAttr::u(cg::DN_FABRIC_ID, fabric_id)];
+    for c in cats {
+        subject.push(cg::DnAttr::u(cg::DN_NOC_CAT, *c as u64));
+    }
+    let p = cg::CertParams {
+        serial: vec![0x51, 0x02],
+        sig_algo: 1,
+        issuer,
+        not_before: 1,
+        not_after: 0,
+        subject,
+        pubkey_algo: 1,
+        curve: 1,
+        pubkey: key2.pk.to_vec(),
+        bc: Some((false, None)),
+        ku: Some(cg::KU_DIGITAL_SIGNATURE),
+        eku: Some(vec![cg::EKU_CLIENT_AUTH, cg::EKU_SERVER_AUTH]),
+        skid: Some(key2.kid.to_vec()),
+        akid: Some(signer.kid.to_vec()),
+        future: None,
+        omit: vec![],
+    };
+    let (noc, ok) = cg::build_cert(crypto, &p, &p, signer, None, rng).map_err(|_| Error::from(ErrorCode::Invalid))?;
+    if !ok {
+        return Err(ErrorCode::Invalid.into());
+    }
+    let mut key = rs_matter::crypto::CanonPkcSecretKey::new();
+    key.load_from_array(&key2.sk);
+    Ok((noc, key))
+}
+
+/// A self-signed root certificate that carries no fabric id (rcac id only), written by the
+/// harness certificate writer. Returns (certificate, secret key, rcac id).
+fn cg_fabricless_root<C: Crypto>(crypto: &C, rng: &mut Rng) -> Result<(Vec<u8>, rs_matter::crypto::CanonPkcSecretKey, u64), Error> {
+    use crate::mon::c19_certgen as cg;
+    let k = cg::gen_key(crypto);
+    let rcac_id = 0xCA00_0000 + rng.below(1 << 20);
+    let dn = vec![cg::DnAttr::u(cg::DN_RCAC_ID, rcac_id)];
+    let p = cg::CertParams {
+        serial: vec![0x51, 0x00],
+        sig_algo: 1,
+        issuer: dn.clone(),
+        not_before: 1,
+        not_after: 0,
+        subject: dn,
+        pubkey_algo: 1,
+        curve: 1,
+        pubkey: k.pk.to_vec(),
+        bc: Some((true, None)),
+        ku: Some(cg::KU_KEY_CERT_SIGN | cg::KU_CRL_SIGN),
+        eku: None,
+        skid: Some(k.kid.to_vec()),
+        akid: Some(k.kid.to_vec()),
+        future: None,
+        omit: vec![],
+    };
+    let (cert, ok) = cg::build_cert(crypto, &p, &p, &k, None, rng).map_err(|_| Error::from(ErrorCode::Invalid))?;
+    if !ok {
+        return Err(ErrorCode::Invalid.into());
+    }
+    let mut key = rs_matter::crypto::CanonPkcSecretKey::new();
+    key.load_from_array(&k.sk);
+    Ok((cert, key, rcac_id))
 }
 
 /// The signature is the last element of a Matter certificate (context tag 11, 64 bytes):
@@ -343,9 +481,24 @@ pub fn run_case(p: &Params) -> Outcome {
     }
 
     let fabric_id = 0x10 + rng.below(1000);
-    let ca = match FabricCa::new(&crypto_g, &mut rng, fabric_id, p.with_icac) {
+    let mut ca = match FabricCa::new(&crypto_g, &mut rng, fabric_id, p.with_icac) {
         Ok(c) => c,
         Err(_) => return Outcome::default(),
+    };
+    // the sibling-fabric defect needs a root CA that is shared by several fabrics
+    let fabricless_root = if matches!(p.defect, CredDefect::SiblingFabricSameRoot | CredDefect::FabriclessRootHonest) {
+        match cg_fabricless_root(&crypto_g, &mut rng) {
+            Ok((cert, key, id)) => {
+                ca.rcac = cert;
+                ca.rcac_key = key;
+                ca.icac = Vec::new();
+                ca.icac_key = None;
+                Some(id)
+            }
+            Err(_) => return Outcome::default(),
+        }
+    } else {
+        None
     };
 
     let (i_defect, r_defect) = if p.defect_side_initiator {
@@ -374,6 +527,7 @@ pub fn run_case(p: &Params) -> Outcome {
         &p.cats,
         i_defect,
         now_matter_secs,
+        fabricless_root,
     ) else {
         return out;
     };
@@ -385,6 +539,7 @@ pub fn run_case(p: &Params) -> Outcome {
         &[],
         r_defect,
         now_matter_secs,
+        fabricless_root,
     ) else {
         return out;
     };
@@ -428,6 +583,37 @@ pub fn run_case(p: &Params) -> Outcome {
     };
     out.init_fab_idx = i_fab.get();
     out.resp_fab_idx = r_fab.get();
+
+    // The verifying side's view of the presented chain, asked directly: this reaches chains
+    // that a real node can never present in a handshake addressed to this fabric (a node that
+    // holds a NOC of fabric F2 addresses F2, not F1), e.g. a sibling fabric under the same root.
+    {
+        use rs_matter::cert::CertRef;
+        use rs_matter::sc::case::verif::CaseP;
+        use rs_matter::tlv::TLVElement;
+        let (vm, vfab, vcrypto, noc, icac): (&Matter<'_>, NonZeroU8, _, &Vec<u8>, &Vec<u8>) = if p.defect_side_initiator {
+            (&mr, r_fab, &crypto_r, &i_creds.noc, &i_icac)
+        } else {
+            (&mi, i_fab, &crypto_i, &r_creds.noc, &r_icac)
+        };
+        let time = vm.with_rtc(|rtc| rtc.utc_time());
+        let res = catch_unwind(AssertUnwindSafe(|| {
+            vm.with_state(|st| {
+                let fabric = st.fabrics.get(vfab)?;
+                let casep = CaseP::new();
+                let noc_ref = CertRef::new(TLVElement::new(noc));
+                let icac_ref = (!icac.is_empty()).then(|| CertRef::new(TLVElement::new(icac)));
+                let mut buf = vec![0u8; 2048];
+                Some(casep.validate_certs(vcrypto, time, fabric, &noc_ref, icac_ref.as_ref(), &mut buf).is_ok())
+            })
+        }));
+        match res {
+            Ok(v) => out.direct_validate = v,
+            Err(pn) => {
+                out.panic = Some(format!("validate_certs: {}", crate::util::panic_msg(&pn)));
+            }
+        }
+    }
 
     let hub = NetHub::new(rng.u64(), 2);
     let tap = tapmon::TapMonitor::new();
@@ -706,7 +892,7 @@ pub fn gen_params(rng: &mut Rng, idx: u64) -> Params {
                     p.defect,
                     CredDefect::IcacSignatureBit | CredDefect::ForeignIcac
                 );
-                let needs_direct = matches!(p.defect, CredDefect::NocIssuedByNoc);
+                let needs_direct = matches!(p.defect, CredDefect::NocIssuedByNoc | CredDefect::SiblingFabricSameRoot | CredDefect::FabriclessRootHonest);
                 if (!needs_icac || p.with_icac) && (!needs_direct || !p.with_icac) {
                     break;
                 }
@@ -814,7 +1000,7 @@ pub fn judge(rep: &mut Report, p: &Params, o: &Outcome, replay: serde_json::Valu
 
     let i_case = secure_case(&o.init_sessions);
     let r_case = secure_case(&o.resp_sessions);
-    let honest = p.defect == CredDefect::None;
+    let honest = matches!(p.defect, CredDefect::None | CredDefect::FabriclessRootHonest);
     let interference = p.wire != WireFault::None || p.chaos > 0;
 
     rep.count(&format!(
@@ -834,6 +1020,34 @@ pub fn judge(rep: &mut Report, p: &Params, o: &Outcome, replay: serde_json::Valu
             rep.count("mutated_runs_ending_with_session");
         } else {
             rep.count("mutated_runs_ending_without_session");
+        }
+    }
+
+    // R1d: the chain validation CASE uses, asked directly about the presented credentials.
+    // (A chain can be valid while the handshake must still fail: a private key that does not
+    // belong to the NOC is not a property of the chain.)
+    if let Some(accepted) = o.direct_validate {
+        rep.count("R1d-validate-certs-checked");
+        let chain_is_valid = honest || p.defect == CredDefect::WrongPrivateKey;
+        if accepted && !chain_is_valid {
+            rep.violation(
+                "R1-defective-credentials-no-session",
+                &format!("C01/R1d/{:?}/chain-validation-accepts", p.defect),
+                format!(
+                    "CaseP::validate_certs, given the verifying node's fabric record, accepts the certificate chain of a peer whose credentials have the defect {:?}; params {:?}",
+                    p.defect, p
+                ),
+                replay.clone(),
+            );
+        } else if !accepted && chain_is_valid {
+            rep.violation(
+                "R4-honest-succeeds",
+                &format!("C01/R4/chain-validation-rejects-valid-chain/{:?}", p.defect),
+                format!("CaseP::validate_certs rejects a valid certificate chain of the addressed fabric; params {:?}", p),
+                replay.clone(),
+            );
+        } else {
+            rep.count(if accepted { "R1d-valid-chain-accepted" } else { "R1d-defective-chain-rejected" });
         }
     }
 
@@ -1002,6 +1216,7 @@ pub fn run(ctx: &Ctx) -> Report {
     rep.assumptions.push("Fabrics::add installs credentials without validating them (that is AddNOC's job, checked by C19); this lets a node present defective material".into());
     rep.assumptions.push("cryptographic strength is not tested: no forged MACs/signatures are searched for".into());
     rep.floor("honest_accepted", 20);
+    rep.floor("R1d-defective-chain-rejected", 150);
     rep.floor("R1-checked", 40);
     rep.floor("R3-checked", 50);
     rep.floor("runs_with_mutant_delivered", 40);
